@@ -337,8 +337,9 @@ func monC07(c *drv.Ctx) {
 
 	// (3) long collision chains: many big loads with fresh hash seeds (the longest chain of a load
 	// of 10^5 keys reaches 9 and more only once in ~70 loads)
-	c.Stage("collision-hunt", c.Pick(160, 4000), false, func(cs *drv.Case) {
-		n := 60000 + cs.R.Intn(60000)
+	c.Stage("collision-hunt", c.Pick(400, 6000), false, func(cs *drv.Case) {
+		// sizes just below 0.75 * 2^k: the table is as full as it ever gets (load factor 0.75)
+		n := []int{98303, 98303, 196607, 49151}[cs.R.Intn(4)]
 		keys := make([]string, n)
 		vals := make([]int, n)
 		salt := cs.R.Int63()
